@@ -684,3 +684,32 @@ func init() {
 		fmt.Println("REPLAY: not-reproduced")
 	}
 }
+
+func init() {
+	replayers["(*JSONEncoder).AppendFloat64"] = func(in map[string]any) {
+		check := func(f float64) string {
+			var buf bytes.Buffer
+			enc := NewJSONEncoder(&buf)
+			enc.AppendObjectBegin()
+			enc.AppendKey("k")
+			enc.AppendFloat64(f)
+			enc.AppendObjectEnd()
+			if !json.Valid(buf.Bytes()) {
+				return fmt.Sprintf("AppendFloat64(%v) produced %s, which is not valid JSON", f, buf.String())
+			}
+			return ""
+		}
+		bits := uint64(0)
+		if f, ok := in["bits"].(float64); ok {
+			bits = uint64(f)
+		}
+		cands := []float64{mathFloat64frombits(bits), mathNaN(), mathInf(1), mathInf(-1), 0, 1.5, -2e300}
+		for _, f := range cands {
+			if msg := check(f); msg != "" {
+				fmt.Println("REPLAY: confirmed", msg)
+				return
+			}
+		}
+		fmt.Println("REPLAY: not-reproduced")
+	}
+}
